@@ -1091,6 +1091,18 @@ func (e *Env) predicate(pd *PredDecl, n *ast.CallExpr) (Val, types.Type, error) 
 		sub.vars[p.Name] = v
 		sub.vtypes[p.Name] = t
 	}
+	if f.C != nil && f.C.Opts["stable"] != "" && f.entryState != nil {
+		for _, nm := range strings.Split(f.C.Opts["stable"], ",") {
+			if strings.TrimSpace(nm) == pd.Name {
+				// stable predicate: it reads only memory that exists at entry and that this function never writes
+				// (every write of the function is a frame obligation: fresh or within `modifies`, and the heap keys of
+				// `modifies` are checked below not to be read by the predicate), so its value is the entry value.
+				sub.st = f.entryState
+				f.assumptions["stable predicate "+pd.Name+" in "+f.Key+": evaluated in the entry heap (the function writes only fresh memory and its `modifies` locations, which the predicate does not read)"] = true
+				f.stablePreds[pd.Name] = true
+			}
+		}
+	}
 	if pd.Macro {
 		v, t, err := sub.expr(pd.Body)
 		if err != nil {
@@ -1108,6 +1120,13 @@ func (e *Env) predicate(pd *PredDecl, n *ast.CallExpr) (Val, types.Type, error) 
 	if f.qdepth > 0 {
 		// under a quantifier: the instance mentions bound variables and cannot be named
 		return Val{K: KBool, T: body}, tBool, nil
+	}
+	if f.stablePreds[pd.Name] {
+		for _, m := range f.modSet {
+			if m.key != "" && m.key != "alloc" && strings.Contains(body, m.key+"@") {
+				return Val{}, nil, fmt.Errorf("predicate %s is declared stable but reads %s, which the function may modify", pd.Name, m.key)
+			}
+		}
 	}
 	key := f.canon(body)
 	if nm, ok := f.predCache[key]; ok {
